@@ -537,7 +537,17 @@ def fam_caches_faults(rng, tier, i):
     return fam_caches(rng, tier, i, reopen=True, faults=True)
 
 def fam_cache_sections(rng, tier, i):
-    """read_n ranges whose two bounds fall into the same section / gap of a cache (C11)"""
+    """read_n ranges whose two bounds fall into the same section / gap of a cache (C11); several levels whose
+    means are spaced around the 65534 limit, so that a coarser level has more sections than a finer one (D17)"""
+    if rng.random() < 0.5:
+        p = rng.choice([0, 0, 1, 2, 3, 4])
+        Bs = rng.choice([(2, 3), (2, 3), (2, 3, 4), (3, 4), (2, 5), (1, 2, 3)])
+        n = rng.choice([12, 24, 40])
+        step = rng.randrange(65534 // max(Bs) - 2000, 65534 // min(Bs) + 3000)
+        s = [new_line("e", p, b"", Bs), "pushseq %d %d %d %d" % (rng.choice([10, 1000, 2**40]), step, n, rng.randrange(256))]
+        s += ["read_n %d u u" % rng.choice([1, 2, 3, 5, 50]), "read_n 2 i%d u" % (10 + 3 * step), "read_all u u", "close",
+              open_line("e", "any", "any", Bs), "read_n %d u u" % rng.choice([1, 2, 4]), "close"]
+        return {"family": "cache_sections", "lines": s, "tags": {"caches", "spacing"}}
     p = rng.choice([1, 2, 4])
     B = rng.choice([2, 3])
     n = rng.choice([200, 400])
